@@ -65,3 +65,32 @@ impl Clone for Value {
     #[verifier::external_body]
     fn clone(&self) -> (r: Self) ensures r == *self { unimplemented!() }
 }
+// ---- insert / insert_value / remove / extend / get / contains_key
+/// Value::from_serializable: the converted value (none when conversion fails - decided in engine K, serde_ser)
+pub uninterp spec fn ser_or_none(v: VxSer) -> Value;
+impl Value {
+    #[verifier::external_body]
+    pub fn from_serializable(v: &VxSer) -> (r: Value) ensures r == ser_or_none(*v) { unimplemented!() }
+}
+impl BTreeMap<Value> {
+    #[verifier::external_body]
+    pub fn remove(&mut self, k: &str) -> (r: Option<Value>)
+        ensures final(self).view_spec() == old(self).view_spec().remove(k@),
+            r == (if old(self).view_spec().dom().contains(k@) { Some(old(self).view_spec()[k@]) } else { None })
+    { unimplemented!() }
+    /// BTreeMap::append: every entry of `other` moves in, overwriting; `other` is left empty
+    #[verifier::external_body]
+    pub fn append(&mut self, other: &mut BTreeMap<Value>)
+        ensures final(self).view_spec() == old(self).view_spec().union_prefer_right(old(other).view_spec()),
+            final(other).view_spec() == vstd::map::Map::<Seq<char>, Value>::empty()
+    { unimplemented!() }
+    #[verifier::external_body]
+    pub fn get(&self, k: &str) -> (r: Option<&Value>)
+        ensures r is Some == self.view_spec().dom().contains(k@), r is Some ==> *r->Some_0 == self.view_spec()[k@]
+    { unimplemented!() }
+    #[verifier::external_body]
+    pub fn contains_key(&self, k: &str) -> (r: bool) ensures r == self.view_spec().dom().contains(k@) { unimplemented!() }
+}
+/// `key.into()` at the one instance verified: the key already is a Cow
+#[verifier::external_body]
+pub fn vx_into_cow(k: Cow<'static, str>) -> (r: Cow<'static, str>) ensures r == k { unimplemented!() }
